@@ -64,7 +64,11 @@ func c05PoolOps(r *verifh.Rng, n, maxage, nops int, breach bool) []string {
 				ops = append(ops, fmt.Sprintf("t+ %d", r.Pick(1, maxage/2+1, maxage)))
 			}
 		}
-		ops = append(ops, fmt.Sprintf("t+ %d", r.Pick(maxage, maxage+1, 2*maxage)), "get", "stat")
+		ops = append(ops, fmt.Sprintf("t+ %d", r.Pick(maxage, maxage+1, 2*maxage)))
+		if r.Chance(1, 2) {
+			ops = append(ops, "getdpanic", "stat") // one of several expired resources: destroy panics, the others stay idle
+		}
+		ops = append(ops, "get", "stat")
 		est = 1
 	}
 	advance := func() {
@@ -88,6 +92,13 @@ func c05PoolOps(r *verifh.Rng, n, maxage, nops int, breach bool) []string {
 				if maxage > 0 && r.Chance(1, 3) {
 					// let the resource just put back expire (or just not) before the next get
 					ops = append(ops, fmt.Sprintf("t+ %d", r.Pick(maxage, maxage+1, 2*maxage)))
+					if r.Chance(1, 3) {
+						// the destroy callback panics (if Get calls it): the resource is gone, nothing handed out
+						ops = append(ops, "getdpanic", "stat")
+						if est > 0 {
+							est--
+						}
+					}
 					get()
 				}
 			} else {
@@ -215,7 +226,7 @@ func c05GenSeq(r *verifh.Rng) []verifh.Section {
 			for _, ops := range c05Enumerate([]string{"try", "borrow", "return", "probe"}, 5) {
 				secs = append(secs, verifh.Section{Cfg: fmt.Sprintf("kind=tlimit mode=seq n=%d", n), Ops: ops})
 			}
-			for _, ops := range c05Enumerate([]string{"get", "getw", "put @0", "put @1", "t+ 11", "t+ 5"}, 5) {
+			for _, ops := range c05Enumerate([]string{"get", "getw", "getdpanic", "put @0", "put @1", "t+ 11", "t+ 5"}, 5) {
 				secs = append(secs, verifh.Section{Cfg: fmt.Sprintf("kind=pool mode=seq n=%d maxage=10 breach=0", n),
 					Ops: append(append([]string(nil), ops...), "stat")})
 			}
@@ -652,6 +663,7 @@ func c05StartPool(cfg verifh.Cfg) (func(op []string) string, func()) {
 	var createdLog, destroyedLog []int
 	var hist *c5.Hist
 	createPanics := false
+	destroyPanics := false // the next destroy call panics (after it has been logged)
 	create := func() any {
 		mu.Lock()
 		if createPanics {
@@ -670,9 +682,14 @@ func c05StartPool(cfg verifh.Cfg) (func(op []string) string, func()) {
 	destroy := func(x any) {
 		mu.Lock()
 		destroyedLog = append(destroyedLog, x.(int))
+		boom := destroyPanics
+		destroyPanics = false
 		mu.Unlock()
 		if hist != nil {
 			hist.RecShared("d:" + strconv.Itoa(x.(int)))
+		}
+		if boom {
+			panic("c05: destroy panics")
 		}
 	}
 	p := NewPool(n, create, destroy, WithMaxAge(time.Duration(maxage)))
@@ -726,10 +743,11 @@ func c05StartPool(cfg verifh.Cfg) (func(op []string) string, func()) {
 	// takes one waiter out again by pushing a sentinel (pushed and popped at once: the pool is as before;
 	// sync.Cond wakes the oldest waiter, the new call takes its place — waiters are interchangeable).
 	// panicCreate: the create callback panics (if Get calls it at all).
-	runGet := func(keepWaiting, panicCreate bool) string {
+	runGet := func(keepWaiting, panicCreate, panicDestroy bool) string {
 		mu.Lock()
 		createdLog, destroyedLog = nil, nil
 		createPanics = panicCreate
+		destroyPanics = panicDestroy
 		mu.Unlock()
 		for len(spy.Waiting) > 0 {
 			<-spy.Waiting
@@ -750,8 +768,13 @@ func c05StartPool(cfg verifh.Cfg) (func(op []string) string, func()) {
 		case o := <-results:
 			mu.Lock()
 			createPanics = false
+			dp := panicDestroy && !destroyPanics // armed and fired
+			destroyPanics = false
 			mu.Unlock()
 			cl, dl := logs()
+			if o.pan && dp {
+				return fmt.Sprintf("dpanicked destroyed=%s", csv(dl))
+			}
 			if o.pan {
 				return fmt.Sprintf("panicked destroyed=%s", csv(dl))
 			}
@@ -764,6 +787,7 @@ func c05StartPool(cfg verifh.Cfg) (func(op []string) string, func()) {
 		case <-spy.Waiting:
 			mu.Lock()
 			createPanics = false
+			destroyPanics = false
 			mu.Unlock()
 			_, dl := logs()
 			if keepWaiting {
@@ -787,11 +811,13 @@ func c05StartPool(cfg verifh.Cfg) (func(op []string) string, func()) {
 	step := func(op []string) string {
 		switch op[0] {
 		case "get":
-			return runGet(false, false)
+			return runGet(false, false, false)
 		case "getw":
-			return runGet(true, false)
+			return runGet(true, false, false)
 		case "getpanic":
-			return runGet(false, true)
+			return runGet(false, true, false)
+		case "getdpanic":
+			return runGet(false, false, true)
 		case "put":
 			// "put @k": the k-th resource the harness holds (resolved at execution time); "put <id>": literal
 			var id int
